@@ -38,6 +38,25 @@ def cases(ctx):
         off = rng.randint(0, 40)
         cs.append({"cyc": cyc, "off": off, "horizon": off + 2 * sum(e["d"] for e in cyc) + 3, "src": "random",
                    "tmin": -rng.randint(0, 30)})
+    # durations / offsets handed over as numpy scalars of narrow types (a compact array of step counts): every single
+    # duration fits the type, the period does not always
+    # (signed types only, offsets stay Python ints: with unsigned / narrow OFFSETS the shipped arithmetic `t - offset`
+    #  itself overflows under numpy 2 for t beyond the type - the annotations say `int`, that is outside the statement)
+    kinds = ["int8", "int16", "int32", "int64"]
+    for i in range(600 if ctx.thorough else 60):
+        dt = kinds[i % len(kinds)]
+        hi = {"int8": 120}.get(dt, 300)
+        n = rng.randint(2, 4)
+        cyc = [{"d": rng.randint(hi // 4, hi), "c": rng.choice(cols)} for _ in range(n)]
+        off = rng.randint(0, 40)
+        tot = sum(e["d"] for e in cyc)
+        edges, acc = [], off
+        for e in cyc:
+            edges += [acc - 1, acc, acc + 1]
+            acc += e["d"]
+        ts = sorted({t for t in edges + [acc - 1, acc, acc + 1, off + tot + 5, off + 2 * tot - 1] if t >= 0})
+        cs.append({"cyc": cyc, "off": off, "horizon": off + tot, "src": "dtype", "tmin": 0, "dt": dt, "ts": ts,
+                   "offdt": "int"})
     return cs
 
 
@@ -50,8 +69,11 @@ def nontrivial(case):
 def _mk(case):
     use_repo()
     from commonroad.scenario.traffic_light import TrafficLightCycle, TrafficLightCycleElement, TrafficLightState
-    els = [TrafficLightCycleElement(TrafficLightState[_COL[e["c"]]], e["d"]) for e in case["cyc"]]
-    return TrafficLightCycle(els, time_offset=case["off"])
+    import numpy as np
+    conv = (lambda v: v) if case.get("dt", "int") == "int" else np.dtype(case["dt"]).type
+    oconv = (lambda v: v) if case.get("offdt", "int") == "int" else np.dtype(case["offdt"]).type
+    els = [TrafficLightCycleElement(TrafficLightState[_COL[e["c"]]], conv(e["d"])) for e in case["cyc"]]
+    return TrafficLightCycle(els, time_offset=oconv(case["off"]))
 
 
 def _q(obj, t):
@@ -78,12 +100,13 @@ def execute(case):
     light_late.traffic_light_cycle = _mk(case)
     light_switched = TrafficLight(4, np.array([0.0, 0.0]), _mk(case))
     light_switched.active = False
-    ts = list(range(case.get("tmin", 0), case["horizon"] + 1))
+    ts = case.get("ts") or list(range(case.get("tmin", 0), case["horizon"] + 1))
+    tag = ("/" + case["dt"]) if case.get("dt") else ""
     for t in ts:
         cold = _mk(case)                      # fresh object: cache never filled
-        ev.append(dict(base, op="cycle_state", t=t, res=_q(cold, t), sig="cold"))
-        ev.append(dict(base, op="cycle_state", t=t, res=_q(warm, t), sig="warm"))
-        ev.append(dict(base, op="light_state", t=t, res=_q(light, t), sig="light"))
+        ev.append(dict(base, op="cycle_state", t=t, res=_q(cold, t), sig="cold" + tag))
+        ev.append(dict(base, op="cycle_state", t=t, res=_q(warm, t), sig="warm" + tag))
+        ev.append(dict(base, op="light_state", t=t, res=_q(light, t), sig="light" + tag))
         if t % 3 == 0:
             ev.append(dict(base, op="light_state", t=t, res=_q(light_off, t), sig="light/constructed-inactive"))
             ev.append(dict(base, op="light_state", t=t, res=_q(light_late, t), sig="light/cycle-set-later"))
@@ -95,6 +118,8 @@ def execute(case):
     # the cycle definition may change in place after it has been queried (element duration, element list, offset):
     # the reported state must follow the CURRENT definition
     from commonroad.scenario.traffic_light import TrafficLightCycleElement, TrafficLightState
+    if case.get("dt"):
+        return {"ev": ev}                                  # (in-place edits are exercised on the plain-int cases)
     cur = [dict(e) for e in case["cyc"]]
     off = case["off"]
     obj = warm
